@@ -11,6 +11,12 @@ transforms); p-values are recomputed with scipy from the model's exact z^2 and c
 `pvals`; `residual_test_stats` must be the stack of both.
 Oracles on the implementation alone: z^2 == Pearson chi-square on every 2x2 CAT x CAT table
 with non-zero margins; exactly rank-deficient / empty tables are NaN everywhere.
+Streams added after the second seeding round (gen_special_stream): (A) same-share tables - a
+subtotal that holds the same dyadic share of every row (column) of a rank >= 2 table, so that a
+whole non-empty block of z-scores is EXACTLY 0 and its p-values must be 2(1 - Phi(0)) = 1;
+(B) population-projected magnitudes (table base 1e8 .. 1e10, integers exact in float64) where a
+residual is tiny relative to the expected count yet statistically real; the float64 cancellation
+rule (CANCEL_COND) says which of those cells are compared and which are skipped and counted.
 """
 import json
 import math
@@ -25,6 +31,9 @@ from harness.core import g_mat
 from harness.props import c12_util as U
 
 PID = "C12"
+# a table counts as clearly of rank >= 2 when its largest 2x2 minor is >= RANK_FULL_REL * max|entry|^2
+# (c12_util.rank_class: sigma_2 / sigma_1 is then >= 1.5e-11, numpy's rank tolerance is ~1e-15)
+RANK_FULL_REL = Fraction(1, 10 ** 9)
 IMPORTS = """From Coq Require Import QArith ZArith List Bool.
 From CC Require Import Base.XQ Base.Render Base.ListX Model.Zscore.
 Import ListNotations."""
@@ -38,8 +47,91 @@ NAMES_B = ["zscores", "pvals", "residual_test_stats", "row_order", "column_order
 # generator
 # ------------------------------------------------------------------------------------
 
+ZERO_BLOCK_SHAPES = ("zero_block_columns", "zero_block_rows", "zero_block_both")
+LARGE_SHAPES = ("large_near_proportional", "large_random", "large_survey")
+BLOCK_NAMES = (("base", "inserted_columns"), ("inserted_rows", "intersections"))
+# a cell whose expected count exceeds CANCEL_COND times its residual |count - expected| (both
+# exact, from the values the model is fed with) is dominated by float64 cancellation: the
+# implementation's expected count fl(fl(r k) / t) carries a relative error of up to 2 ulp, i.e. the
+# residual an absolute error of 2.2e-16 * expected, and z*|z| a relative error of 4.4e-16 * cond -
+# above the comparison's 1e-9 from cond = 2e6 on.  Such cells are skipped AND counted.
+CANCEL_COND = 10 ** 6
+
+
+def _subtotal(v, name, positions, anchor):
+    ids = U.element_ids(v)
+    return {"function": "subtotal", "name": name, "anchor": anchor, "args": [ids[p] for p in positions]}
+
+
+def gen_special_stream(rng, k, shape):
+    """the two streams added for the blind spots found by seeded changes: (A) a whole block of
+    z-scores that is exactly 0, (B) population-projected magnitudes"""
+    transforms = None
+    if shape in ZERO_BLOCK_SHAPES:
+        nr, nc = rng.randint(2, 4), rng.randint(3, 5)
+        table, A, rest = U.zero_block_table(rng, nr, nc)
+        flip = shape == "zero_block_rows" or (shape == "zero_block_both" and rng.random() < 0.5)
+        if flip:
+            table = [list(r) for r in zip(*table)]
+        rowv = gen.make_cat(rng, "rowv", n_valid=len(table))
+        colv = gen.make_cat(rng, "colv", n_valid=len(table[0]))
+        pv, ov = (rowv, colv) if flip else (colv, rowv)
+        anchors = ["top", "bottom"] + U.element_ids(pv)
+        pv.view_insertions = [_subtotal(pv, "%s_same_share" % pv.alias, A, rng.choice(anchors))]
+        if rng.random() < 0.4:
+            # the complement holds the share 1 - s of every row: exactly 0 as well
+            pv.view_insertions.append(_subtotal(pv, "%s_complement" % pv.alias, rest, rng.choice(anchors)))
+        if shape == "zero_block_both":
+            # any subtotal on the other dimension: its intersection with the same-share subtotal is
+            # (sum of rows) x (same share) - exactly 0 too
+            n_o = len(U.element_ids(ov))
+            pos = sorted(rng.sample(range(n_o), rng.randint(1, n_o)))
+            ov.view_insertions = [_subtotal(ov, "%s_sub" % ov.alias, pos, rng.choice(["top", "bottom"]))]
+        w = None if rng.random() < 0.5 else Fraction(rng.randint(1, 12), 4)
+        sv = U.survey_from_table(rng, rowv, colv, table, weight=w)
+        pair = ("cat", "cat")
+    else:
+        if shape == "large_survey":
+            pair = rng.choice([("cat", "cat"), ("mr", "cat"), ("cat", "mr"), ("mr", "mr")])
+            nrv, ncv = rng.randint(2, 4), rng.randint(2, 4)
+            rowv = gen.make_mr(rng, "rowv", n_items=nrv) if pair[0] == "mr" else gen.make_cat(rng, "rowv", n_valid=nrv)
+            colv = gen.make_mr(rng, "colv", n_items=ncv) if pair[1] == "mr" else gen.make_cat(rng, "colv", n_valid=ncv)
+        else:
+            pair = ("cat", "cat")
+            rowv = gen.make_cat(rng, "rowv", n_valid=rng.randint(2, 4))
+            colv = gen.make_cat(rng, "colv", n_valid=rng.randint(2, 5))
+        for v in (rowv, colv):
+            if v.kind == "cat" and rng.random() < 0.5:
+                v.view_insertions = gen.random_insertions(rng, v)
+        if shape == "large_survey":
+            # few respondents, each standing for 1e6 .. 1e8 people (integer weights)
+            sv = gen.Survey([rowv, colv], rng.choice([25, 40, 60]), rng, weighted=True, integer_weights=True)
+            f = rng.randint(10 ** 6, 10 ** 8)
+            for r_ in sv.resp:
+                r_["w"] = r_["w"] * f + (rng.randint(0, 999) if r_["w"] else 0)
+        else:
+            table = U.large_table(rng, len(U.element_ids(rowv)), len(U.element_ids(colv)),
+                                  "random" if shape == "large_random" else "near_proportional")
+            sv = U.survey_from_weighted_table(rng, rowv, colv, table)
+    resp = gen.cube_response(sv, ["rowv", "colv"])
+    if rng.random() < 0.3:
+        transforms = {}
+        for key, v in (("rows_dimension", rowv), ("columns_dimension", colv)):
+            d = U.display_transform(rng, v)
+            if d:
+                transforms[key] = d
+        transforms = transforms or None
+    return {"k": k, "pair": list(pair), "shape": shape, "three_d": False,
+            "weighted": bool(sv.weighted), "response": resp, "transforms": transforms}
+
+
 def gen_case(rng, k):
     r = rng.random()
+    if r < 0.10:
+        return gen_special_stream(rng, k, rng.choice(ZERO_BLOCK_SHAPES))
+    if r < 0.22:
+        return gen_special_stream(rng, k, rng.choice(LARGE_SHAPES + ("large_near_proportional",)))
+    r = (r - 0.22) / 0.78
     shape = "random"
     three_d = False
     if r < 0.50:
@@ -222,6 +314,25 @@ def exact_zero_variance(io):
     return out
 
 
+def residual_ratio(io):
+    """payload-order matrix: None, or the exact |count - expected| / |expected| of the cell
+    (expected = r k / t of the cell's own bases, t != 0, expected != 0)"""
+    b = io["blk"]
+    F = {n: U.full_from_blocks(U.frac_blocks(b[n])) for n in ("c", "t", "r", "k")}
+    out = []
+    for i, row in enumerate(F["t"]):
+        o = []
+        for j, t in enumerate(row):
+            c, r, k = F["c"][i][j], F["r"][i][j], F["k"][i][j]
+            if all(U.is_num(x) for x in (c, t, r, k)) and t != 0 and r * k != 0:
+                e = r * k / t
+                o.append(abs(c - e) / abs(e))
+            else:
+                o.append(None)
+        out.append(o)
+    return out
+
+
 def nonfinite(x):
     return isinstance(x, str)
 
@@ -252,8 +363,13 @@ def compare_part(case, io, toks, rep):
     mb = [[fix(mb[0][0], nr, nc), fix(mb[0][1], nr, ncs)], [fix(mb[1][0], nrs, nc), fix(mb[1][1], nrs, ncs)]]
     full = U.full_from_blocks(mb)
     zv = exact_zero_variance(io)
-    rc = U.rank_class(io["blk"]["c"][0][0])
+    rr = residual_ratio(io)
+    rc = U.rank_class(io["blk"]["c"][0][0], RANK_FULL_REL)
     io["rank_class"] = rc
+    # evidence: non-empty blocks whose model z-scores are ALL exactly 0 (p must be 1 there)
+    io["zero_blocks"] = [BLOCK_NAMES[x][y] for x in (0, 1) for y in (0, 1)
+                         if mb[x][y] and mb[x][y][0] and all(v == 0 for r_ in mb[x][y] for v in r_)]
+    io["n_cancel_skipped"] = io["n_small_residual"] = 0
     if rc == "unclear":
         rep.cov["skipped_near_threshold"] += 1
         return fails
@@ -269,6 +385,7 @@ def compare_part(case, io, toks, rep):
         ro, co = R["row_order"][1], R["column_order"][1]
         mdisp = U.display_of(full, ro, co, nr + nrs, nc + ncs)
         zvd = U.display_of(zv, ro, co, nr + nrs, nc + ncs)
+        rrd = U.display_of(rr, ro, co, nr + nrs, nc + ncs)
         Z = np.asarray(R["zscores"][1], dtype=float)
         P = np.asarray(R["pvals"][1], dtype=float)
         if Z.shape != (len(ro), len(co)) or P.shape != Z.shape:
@@ -286,6 +403,15 @@ def compare_part(case, io, toks, rep):
                     okz = nonfinite(m) and not math.isfinite(iz)
                     okp = math.isnan(ip) or abs(ip) <= 1e-9
                 else:
+                    q = rrd[i][j]
+                    if q is not None and 0 < q * CANCEL_COND < 1 and not nonfinite(m):
+                        # float64 cancellation dominates the residual (rule at CANCEL_COND): the
+                        # decision "is this z the model's z" is within rounding; skipped AND counted
+                        rep.cov["skipped_near_threshold"] += 1
+                        io["n_cancel_skipped"] += 1
+                        continue
+                    if q is not None and 0 < q < Fraction(1, 10 ** 5):
+                        io["n_small_residual"] += 1
                     okz = core.close(iz, m)
                     okp = close_p(ip, expected_p(m))
                     if not nonfinite(m):
@@ -369,7 +495,7 @@ def check_cases(cases, rep, tag="cases"):
 def run(tier, seed):
     rep = core.Report(PID, tier, seed)
     ob = core.obligations_gate(rep, PID)
-    n_cases = 260 if tier == "quick" else 4000
+    n_cases = 330 if tier == "quick" else 5000
     rng = random.Random(seed)
     cases = [gen_case(rng, k) for k in range(n_cases)]
     if tier == "thorough":
@@ -385,6 +511,12 @@ def run(tier, seed):
         rep.dist("display_transforms" if case["transforms"] else "no_display_transforms")
         for p in parts:
             rep.dist("rank_class=" + str(p.get("rank_class")))
+            for bn in p.get("zero_blocks", []):
+                rep.dist("all_zero_zscore_block=" + bn)
+            if p.get("n_cancel_skipped"):
+                rep.dist("cells_skipped_float_cancellation(expected > 1e6 x residual)", p["n_cancel_skipped"])
+            if p.get("n_small_residual"):
+                rep.dist("cells_compared_with_0<|residual|<1e-5*expected", p["n_small_residual"])
             d = p.get("dims")
             if d and len(d) == 4 and (d[1] or d[3]):
                 rep.dist("partitions_with_subtotals")
@@ -400,7 +532,13 @@ def run(tier, seed):
         "rows, empty margins, single cell/row/column, all zero, 2x2), MR x CAT, CAT x MR, MR x MR, "
         "datetime/text/binned x CAT, 3-D CAT x CAT x CAT; dyadic weights or unweighted; subtotal and "
         "difference insertions on categorical dimensions; 35% with explicit order / hide transforms "
-        "(incl. stale ids); non-trivial = a partition whose base counts are clearly of rank >= 2 and "
+        "(incl. stale ids); 10% same-share tables (a subtotal over columns / rows that holds the same dyadic "
+        "share of every row / column of a rank >= 2 table: the inserted-columns / inserted-rows / "
+        "intersections block of z-scores is exactly 0 and every p-value in it must be 1; counted as "
+        "all_zero_zscore_block=<block>); 12% population-projected magnitudes (one respondent per cell whose "
+        "integer weight is the count, table base 1e8..1e10: near-proportional tables with |residual| / expected "
+        "in [3e-6, 1e-3], random tables, and CAT|MR surveys whose respondents weigh 1e6..1e8 each); "
+        "non-trivial = a partition whose base counts are clearly of rank >= 2 and "
         "that has at least one finite z-score compared; distinct by content hash")
     rep.cov["coq_eval_seconds"] = round(coq_s, 2)
     rep.cov["model_terms_evaluated"] = nterms
@@ -408,7 +546,12 @@ def run(tier, seed):
         "inputs of the step (weighted counts, table/row/column weighted bases) are the implementation's own "
         "public values (owned by C01/C02/C04)",
         "numpy.linalg.matrix_rank(counts) < 2 <=> exact rank < 2 on the generated tables: exactly "
-        "rank-deficient small dyadic tables or a 2x2 minor >= 1e-3 * max|entry|^2 (others skipped and counted)",
+        "rank-deficient tables or a 2x2 minor >= 1e-9 * max|entry|^2 (then sigma_2 / sigma_1 >= 1.5e-11 against "
+        "numpy's tolerance of ~1e-15, see c12_util.rank_class; others skipped and counted)",
+        "float64 cancellation: a cell whose exact expected count exceeds 1e6 x its exact non-zero residual "
+        "|count - expected| is not compared (the 2 ulp of fl(fl(r k)/t) are then >= 4.4e-10 of z*|z|): skipped and "
+        "counted in skipped_near_threshold and distribution['cells_skipped_float_cancellation...']; cells with "
+        "a residual between 1e-6 and 1e-5 of the expected count ARE compared (distribution['cells_compared_with_0<|residual|<1e-5*expected'])",
         "scipy.stats.norm.cdf has the CDF shape assumed by the p-value theorems (symmetric, monotone, in [0,1]); "
         "expected p-values are computed with scipy from the model's exact z^2 (tolerance 1e-9 absolute)",
         "cells whose exact variance is 0 (row/column share 0 or 1): NaN and +-inf are not distinguished "
